@@ -6,6 +6,7 @@ from ..mirutil import (success_edges, root_place, op_root, deep_root, place_is_f
                        origin, defuse, calls_in, forward_taint)
 from ..region import switch_edges_on_variant, dominated_by_edges
 from .. import anchors as A
+from . import c02
 from .c12 import peer_remove_sites
 
 HM_LOOKUP = ("HashMap::get_mut", "HashMap<K, V, S>::get_mut", "HashMap::get", "HashMap<K, V, S>::get",
@@ -147,6 +148,7 @@ RULES = [
     ("C09.R2", r2_dispatch_priority, "dispatch priority: pending handshake objects see only handshake datagrams or non-peers"),
     ("C09.R3", r3_removal_attribution, "a peer is removed in the crypto tick only for its own failure (provenance)"),
     ("C09.R5", r5_routes_dropped_only_with_peer, "routes of an address are dropped only together with (or in the absence of) its peer"),
+    ("C09.R6", c02.r5_open_checked_before_state, "the receive window of a connection is advanced only behind a successful AEAD open (= C02.R5): a forged datagram cannot move it"),
 ]
 
 LEVEL_TEXT = ("Static who-may-call, dominance and provenance rules on MIR: a peer is removed only at three reviewed sites (timeout, authenticated "
